@@ -33,6 +33,10 @@ for _k in range(1, 20):
     HARMLESS_CHECKS["R5_C%02d_rounding" % _k] = sorted({"C%02d" % _k, "C19"})
 
 
+# round 6: a CORRECT memo (lru_cache on a private helper, the public function hands out a copy): the counterpart of seed C17q
+HARMLESS_CHECKS["R6_C17_memo_handing_out_copies"] = ["C16", "C17", "C19"]
+
+
 def _run(patch, props):
     r = subprocess.run([os.path.join(VERIF_ROOT, "tools", "try_patch.sh"), patch] + props, capture_output=True, text=True)
     codes = {}
